@@ -22,7 +22,7 @@ PROP = dict(
           "when the candidate is not an honest triple, or the message is empty / multi-block / longer than the hash block, or the "
           "key went through its byte encoding; recovery cases: RecoverFrom compared with SEC 1 4.1.6 on the reference curve; "
           "HashToInt cases: compared with FIPS 186-4 bits2int; volume cases: honest (key, counter message) pairs verified "
-          "under the deserialised public key; aliasing cases: scribble histories on keys/signatures; distinct = distinct (instance, hash, key, signature, message) hashes"),
+          "under the deserialised public key; aliasing cases: scribble histories on keys/signatures; history cases: call sequences on one shared hash object; distinct = distinct (instance, hash, key, signature, message) hashes"),
     assumptions=[
         "reference = harness/internal/ref (ref.Curve / ref.Edwards / ref.MiMC over math/big, no gnark-crypto code); SHA-2 from the Go standard library",
         "all keys come from rapid-drawn seeds through a deterministic io.Reader, or from SetBytes of generated encodings; the ECDSA signer draws its "
@@ -38,6 +38,10 @@ PROP = dict(
         "volume job: the EdDSA reference signer uses the documented nonce blake2b-512(randSrc || M)[:size] and compares S byte for byte on every "
         "message, R = [r]B and the full equation on a subsample and on every signature with >= 2 leading zero bytes; ECDSA signing mixes "
         "crypto/rand entropy, so there only the verdict (and the reference equation on a subsample) is used",
+        "history clause: Sign, SignForRecover and Verify of every package call Reset() on the hash before writing and no doc comment asks the caller "
+        "to hand in a clean object, so a shared hash.Hash object may be dirty (caller Write/Sum, a previous Verify, a failed MiMC Write) when it is "
+        "passed in; every signature made on the shared object must verify with a fresh object and satisfy the reference equation, every Verify "
+        "verdict on the shared object must equal the fresh-object verdict and the reference verdict",
         "aliasing clause: SHA-256 only; after every scribble step the source key must serialise identically, and at the end sign for its original "
         "public key (library Verify and reference equation) and agree with a copy reloaded from the saved bytes",
         "public-key recovery exists only in the secp256k1, bn254 and stark-curve packages",
@@ -59,6 +63,8 @@ PROP = dict(
              shards=_sh("ecdsa", ["bn254", "grumpkin", "bls12-377", "bls24-315"]), seeds=(3, 8), timeout=(900, 3600)),
         dict(name="vol_ecdsa", pkg="c12", run="^TestC12_HonestVolume_ECDSA$", rapid=False,
              shards=_sh("ecdsa", ["stark-curve", "bw6-633", "bw6-761"]), seeds=(1, 4), timeout=(900, 3600)),
+        dict(name="history_ecdsa", pkg="c12", run="^TestC12_History_ECDSA$", shards=_sh("ecdsa", CURVES), checks=(20, 300)),
+        dict(name="history_eddsa", pkg="c12", run="^TestC12_History_EdDSA$", shards=_sh("eddsa", EDDSA_ALL), checks=(20, 300)),
         dict(name="alias_ecdsa", pkg="c12", run="^TestC12_Alias_ECDSA$", checks=(25, 400)),
         dict(name="alias_eddsa", pkg="c12", run="^TestC12_Alias_EdDSA$", checks=(25, 400)),
         dict(name="regress", pkg="c12", run="^TestC12_(Regress.*|Probe.*|Anchor.*|Dispatch)$", rapid=False),
@@ -76,6 +82,9 @@ PROP = dict(
         "sig_bitflip_R", "sig_bitflip_S", "S_zero", "S_eq_l", "S_l_plus_1", "S_plus_l", "R_offcurve", "R_noncanonical_y",
         "R_small_order", "R_plus_torsion_resigned", "R_signbit_x0", "pk_noncanonical_y", "pk_small_order", "pk_plus_torsion",
         "leading_zero_bit",
+        # one hash object shared by a sequence of calls
+        "history:shared_hash_object", "history:verify_then_sign", "history:dirty_hash_before_sign", "hstep:sign_for_recover",
+        "hstep:caller_write", "hstep:verify_inadmissible",
         # volume and aliasing
         "volume_honest_eddsa", "volume_honest_ecdsa", "sig:leading_zero_bytes>=1", "sig:leading_zero_bytes>=2", "S:leading_zero_bytes>=2",
         "alias:public_of_private", "alias:public_of_private_invalid", "alias:bytes_slice", "alias:setbytes_input", "alias:public_of_loaded",
